@@ -8,6 +8,7 @@ mod meta;
 mod reply;
 mod xmltok;
 mod ser;
+mod plan;
 mod sshserver;
 mod tlsserver;
 mod util;
@@ -46,6 +47,7 @@ fn main() {
         "meta" => meta::main(&opts),
         "daemon" => daemon::main(&opts),
         "ser" => ser::main(&opts),
+        "plan" => plan::main(&opts),
         _ => {
             eprintln!("unknown op {op}");
             std::process::exit(2);
